@@ -51,6 +51,8 @@ pub struct Target {
     pub tail: Option<String>,
     pub serves: Vec<String>,
     pub spec_file: String,
+    /// auto-extracted helper: match the function in any impl (inherent or trait) of the type
+    pub any_impl: bool,
 }
 
 #[derive(Clone, Debug)]
@@ -186,11 +188,13 @@ pub fn parse_unit(path: &str, include_dir: &str) -> Result<Unit, String> {
 
 fn parse_into(text: &str, path: &str, include_dir: &str, unit: &mut Unit) -> Result<(), String> {
     let mut cur: Option<Target> = None;
+    let mut default_serves: Vec<String> = Vec::new();
     for (ln, d, a) in split_directives(text) {
         let origin = format!("{}:{}", path, ln);
         let a_trim = a.trim().to_string();
         match d.as_str() {
             "unit" => unit.name = a_trim,
+            "serves-default" => default_serves = a_trim.split_whitespace().map(String::from).collect(),
             "prelude" => {
                 for f in a_trim.split_whitespace() {
                     if !unit.preludes.iter().any(|x| x == f) {
@@ -254,7 +258,10 @@ fn parse_into(text: &str, path: &str, include_dir: &str, unit: &mut Unit) -> Res
                 cur = Some(Target { name: a_trim, spec_file: path.to_string(), ..Default::default() });
             }
             "end" => {
-                let t = cur.take().ok_or_else(|| format!("{}: @end without @target", origin))?;
+                let mut t = cur.take().ok_or_else(|| format!("{}: @end without @target", origin))?;
+                if t.serves.is_empty() {
+                    t.serves = default_serves.clone();
+                }
                 if t.file.is_empty() {
                     return Err(format!("{}: target {} has no @source", origin, t.name));
                 }
